@@ -16,7 +16,25 @@ TAGS = [u"alpha", u"beta", u"delta", u"gamma", u"zeta"]
 WHENS = [datetime.datetime(1999, 1, 1), datetime.datetime(2000, 1, 1), datetime.datetime(2000, 1, 1, 0, 0, 1),
          datetime.datetime(2024, 2, 29)]
 MULTI = [u"m1", u"m2", u"m3"]
-FIELDS = {"num": NUMS, "numnc": NUMS, "tag": TAGS, "tagnc": TAGS, "when": WHENS, "flag": [False, True], "multi": MULTI}
+FIELDS = {"num": NUMS, "numnc": NUMS, "tag": TAGS, "tagnc": TAGS, "when": WHENS, "flag": [False, True], "multi": MULTI,
+          "st": TAGS}
+# RangeFacet("num", start, end, gap, hardend) configurations
+RANGES = [(-5, 10, 5, False), (0, 8, 3, False), (0, 8, 3, True), (-1, 20, [1, 2, 10], False), (1, 101, 50, False),
+          (0, 1, 1, False)]
+
+
+def buckets_of(start, end, gap, hardend):
+    """The documented buckets of a RangeFacet: inclusive start, exclusive end, gap sequence whose last
+    size repeats, last bucket clamped to end only with hardend."""
+    gaps = list(gap) if isinstance(gap, (list, tuple)) else [gap]
+    out, c, i = [], start, 0
+    while c < end:
+        e = c + gaps[min(i, len(gaps) - 1)]
+        if hardend:
+            e = min(e, end)
+        out.append([c, e])
+        c, i = e, i + 1
+    return out
 
 
 def make_schema():
@@ -26,7 +44,8 @@ def make_schema():
                          body=fields.TEXT(analyzer=ana, phrase=True), title=fields.TEXT(analyzer=ana),
                          num=fields.NUMERIC(int, sortable=True), numnc=fields.NUMERIC(int),
                          tag=fields.ID(sortable=True), tagnc=fields.ID(), when=fields.DATETIME(sortable=True),
-                         flag=fields.BOOLEAN(), multi=fields.KEYWORD(sortable=False))
+                         flag=fields.BOOLEAN(), multi=fields.KEYWORD(sortable=False, stored=True),
+                         st=fields.ID(stored=True))
 
 
 def rand_doc(rng, missing):
@@ -100,29 +119,55 @@ def observe(s, q, aq, rng, missing):
             pass
         obs.append(o)
     single = ["num", "numnc", "tag", "tagnc", "when", "flag"]
+
+    def facet_of(key):
+        fn, rv = key[0], key[1]
+        if fn == "_score":
+            return sorting.ScoreFacet()
+        if fn == "st":
+            return sorting.StoredFieldFacet("st")
+        if fn == "_range":
+            return sorting.RangeFacet("num", *key[3])
+        if fn == "_query":
+            return sorting.QueryFacet(dict(("q%d" % (i + 1), world.to_query(a)) for i, a in enumerate(key[2])))
+        return sorting.FieldFacet(fn, reverse=rv)
+
+    def rand_key():
+        c = rng.random()
+        if c < 0.12:
+            return ["st", False]
+        if c < 0.24:
+            rg = rng.choice(RANGES)
+            return ["_range", False, buckets_of(*rg), list(rg)]
+        if c < 0.36:
+            # a query facet whose queries are disjoint, so that every document has one key
+            a, b = world.rand_query(rng, 1), world.rand_query(rng, 1)
+            return ["_query", False, [a, {"op": "andnot", "a": b, "b": a}]]
+        return [rng.choice(single), rng.random() < 0.4]
     # sorting
     for _ in range(3):
         nk = rng.choice([1, 1, 2, 3])
         # score keys only where the scores are specified exactly (QuerySem!Scored)
-        pool = single + ["_score"] if nk > 1 and c01_scored(aq) else single
-        keys = [[rng.choice(pool), rng.random() < 0.4] for _ in range(nk)]
+        keys = [["_score", False] if nk > 1 and c01_scored(aq) and rng.random() < 0.15 else rand_key()
+                for _ in range(nk)]
         grev = rng.random() < 0.25
         k = rng.choice([0, 0, 1, 2, 3])
 
         def f(keys=keys, grev=grev, k=k):
-            facets = [sorting.ScoreFacet() if fn == "_score" else sorting.FieldFacet(fn, reverse=rv) for fn, rv in keys]
-            if keys and any(fn == "_score" and rv for fn, rv in keys):
-                return
+            facets = [facet_of(key) for key in keys]
             sb = facets[0] if len(facets) == 1 else sorting.MultiFacet(facets)
             r = s.search(q, limit=k or None, sortedby=sb, reverse=grev)
-            obs.append({"kind": "sorted", "path": "sortedby=%s reverse=%s limit=%s" % (keys, grev, k), "keys": keys,
+            obs.append({"kind": "sorted", "path": "sortedby=%s reverse=%s limit=%s" % (
+                        [key[:2] + key[3:] for key in keys], grev, k), "keys": [key[:3] for key in keys],
                         "grev": grev, "k": k, "docs": [int(h.docnum) for h in r]})
             obs.append({"kind": "len", "path": "len(sorted results)", "n": len(r)})
         guard("sorted", f)
     # grouping
-    for fn, overlap in (("tag", False), ("num", False), ("multi", True), ("flag", False)):
-        def g(fn=fn, overlap=overlap):
-            facet = sorting.FieldFacet(fn, allow_overlap=overlap)
+    for fn, overlap, stored in (("tag", False, False), ("num", False, False), ("multi", True, False),
+                                ("flag", False, False), ("st", False, True), ("multi", True, True)):
+        def g(fn=fn, overlap=overlap, stored=stored):
+            facet = (sorting.StoredFieldFacet(fn, allow_overlap=overlap) if stored
+                     else sorting.FieldFacet(fn, allow_overlap=overlap))
             r = s.search(q, limit=2, groupedby={fn: facet})
             groups = r.groups(fn)
             pool = FIELDS[fn]
@@ -142,9 +187,37 @@ def observe(s, q, aq, rng, missing):
                     else:
                         kid = -1
                 out.append([kid, [int(x) for x in dns]])
-            obs.append({"kind": "groups", "path": "groupedby=%s overlap=%s" % (fn, overlap), "f": fn, "overlap": overlap,
-                        "groups": out})
+            obs.append({"kind": "groups", "path": "groupedby=%s overlap=%s stored=%s" % (fn, overlap, stored), "f": fn,
+                        "overlap": overlap, "groups": out})
         guard("groups:" + fn, g)
+    # range and query facets
+    rg = rng.choice(RANGES)
+
+    def gr():
+        bs = buckets_of(*rg)
+        r = s.search(q, limit=2, groupedby={"r": sorting.RangeFacet("num", *rg)})
+        out = []
+        for key, dns in r.groups("r").items():
+            kid = 0 if key is None else (bs.index(list(key)) + 1 if isinstance(key, tuple) and list(key) in bs else -1)
+            out.append([kid, [int(x) for x in dns]])
+        obs.append({"kind": "groups", "path": "groupedby=RangeFacet(num, %s)" % (rg,), "f": "_range", "overlap": False,
+                    "buckets": bs, "groups": out})
+    guard("groups:range", gr)
+    aqs = [world.rand_query(rng, rng.randrange(0, 2)) for _ in range(rng.choice([1, 2, 3]))]
+    for overlap in (False, True):
+        other = rng.choice([None, "zz"])
+
+        def gq(overlap=overlap, other=other):
+            names = ["q%d" % (i + 1) for i in range(len(aqs))]
+            qd = dict((n, world.to_query(a)) for n, a in zip(names, aqs))
+            r = s.search(q, limit=2, groupedby={"q": sorting.QueryFacet(qd, other=other, allow_overlap=overlap)})
+            out = []
+            for key, dns in r.groups("q").items():
+                kid = 0 if key == other else (names.index(key) + 1 if key in names else -1)
+                out.append([kid, [int(x) for x in dns]])
+            obs.append({"kind": "groups", "path": "groupedby=QueryFacet(%d queries, other=%r, allow_overlap=%s)" % (
+                        len(aqs), other, overlap), "f": "_query", "overlap": overlap, "qs": aqs, "groups": out})
+        guard("groups:query", gq)
     # collapsing (by score ranking)
     if c01_scored(aq):
         for fn in ("tag", "num", "flag"):
@@ -290,6 +363,15 @@ def check(run):
                         r = s.search(query.Every(), limit=None, sortedby=sorting.FieldFacet(f, reverse=rv))
                         obs.append({"kind": "sorted", "path": "sortedby=%s reverse-key=%s (every document)" % (f, rv),
                                     "keys": [[f, rv]], "grev": False, "k": 0, "docs": [int(h.docnum) for h in r]})
+                for grev in (False, True):
+                    r = s.search(query.Every(), limit=None, sortedby=sorting.StoredFieldFacet("st"), reverse=grev)
+                    obs.append({"kind": "sorted", "path": "sortedby=StoredFieldFacet(st) reverse=%s (every document)" % grev,
+                                "keys": [["st", False]], "grev": grev, "k": 0, "docs": [int(h.docnum) for h in r]})
+                    rg = RANGES[wi % len(RANGES)]
+                    r = s.search(query.Every(), limit=None, sortedby=sorting.RangeFacet("num", *rg), reverse=grev)
+                    obs.append({"kind": "sorted", "path": "sortedby=RangeFacet(num, %s) reverse=%s (every document)" % (rg, grev),
+                                "keys": [["_range", False, buckets_of(*rg)]], "grev": grev, "k": 0,
+                                "docs": [int(h.docnum) for h in r]})
                 run.count(len(obs))
                 qs.append({"q": {"op": "every", "f": "", "b4": 4}, "obs": obs})
             cases.append({"idx": idx, "qs": qs})
